@@ -74,7 +74,7 @@ def resolve(fq: str):
     raise ImportError(fq)
 
 
-PLAIN_SNAPSHOT = {"MemoryWorkflowStore", "_ControlLoopRunner", "FakeAdapter", "_ServerInternalRunAdapter",
+PLAIN_SNAPSHOT = {"MemoryWorkflowStore", "_ControlLoopRunner", "FakeAdapter", "JournalAdapter", "_ServerInternalRunAdapter",
                   "ServerRuntimeDecorator", "IdleReleaseDecorator"}
 
 
